@@ -9,6 +9,7 @@ The composed statement is explored by the Go-side oracle of stream `expimp`.
 -/
 import Acme.Core.Conv
 import Acme.Proofs.Conv
+import Acme.Gen.DbcFields
 
 namespace Acme.Props.C11
 open Acme.Conv
@@ -53,5 +54,29 @@ theorem C11_selector_width (w : Int) (h1 : 1 ≤ w) (h2 : w ≤ 62) :
 example : compress [0, 1, 2, 5, 7, 8] = some [(0, 2), (5, 5), (7, 8)] := by decide
 example : expand 9 [(0, 2), (5, 5), (7, 8)] = some [0, 1, 2, 5, 7, 8] := by decide
 example : convStart 28 = 27 ∧ convStart 27 = 28 := by decide
+
+/-! ### the exporter and the importer speak about the same part of the DBC document
+
+`Acme.Gen.exportedFields / importedFields` are REGENERATED from exporter.go and importer.go on
+every run: the (AST type, field) pairs the exporter writes and the importer reads.  Whatever
+the exporter puts into the document and the importer does not look at cannot come back. -/
+
+/-- written by the exporter, deliberately not read by the importer -/
+def exportedNotImported : List ((String × String) × String) := [
+  (("Attribute", "Kind"), "object kind of an attribute definition: the importer assigns an attribute to whatever object a BA_ line names; the kind of the definition does not restrict it")
+]
+
+/-- read by the importer only -/
+def importedNotExported : List ((String × String) × String) := [
+  (("Location", "Filename"), "source position of a parsed node, used in import errors; the exporter builds the document, it has no positions")
+]
+
+theorem C11_fields :
+    Acme.Gen.exportedFields.filter (fun p => !(exportedNotImported.map (·.1)).contains p) =
+    Acme.Gen.importedFields.filter (fun p => !(importedNotExported.map (·.1)).contains p) := by
+  decide
+
+example : ("Signal", "StartBit") ∈ Acme.Gen.exportedFields ∧ ("ExtendedMux", "Ranges") ∈ Acme.Gen.importedFields := by
+  decide
 
 end Acme.Props.C11
